@@ -21,5 +21,6 @@ try:
 finally:
     work.cleanup() if hasattr(work, "cleanup") else None
 out = os.path.join(VERIF, "tables", "known_functions.json")
-json.dump({"_comment": "function keys of the reviewed tree; helpers not listed here are inlined into their callers before the rules run (inkalint/inline.py)", "functions": keys, "signatures": sigs}, open(out, "w"), indent=0)
+fields = sorted({(fl.get("name") if isinstance(fl, dict) else str(fl)) for a in prog.adts.values() for v in a.get("variants", []) for fl in v.get("fields", [])} - {None})
+json.dump({"fields": fields, "_comment": "function keys of the reviewed tree; helpers not listed here are inlined into their callers before the rules run (inkalint/inline.py)", "functions": keys, "signatures": sigs}, open(out, "w"), indent=0)
 print(len(keys), "functions")
